@@ -98,3 +98,19 @@ Proof. exact gen_tdevice_tbase. Qed.
 Theorem C09_source_thermal_temperature : forall n su ef ti to tr te c (r : list R), length r = n ->
   TDevice_r2t (A:=R) n su ef ti to tr te c r = tdev_r2t (tq su ef ti to tr te c) r.
 Proof. exact gen_tdevice_r2t. Qed.
+
+(* ---- utils.base_soc / soc / sustainment_matrix / power_matrix regenerated from device_kit/utils.py on every run (Gen/Utils.v, a typed
+        table of the NumPy array operations they are written in) ARE the closed forms the recurrences above are proved about: the
+        triu / cumsum / transpose idiom is the matrix of exponents i - j, np.tril(s ** that) the sustainment matrix (np.tril(ones) for s = 1),
+        and the diagonal of the row-wise cumsum of (r * e**sign(r)) * matrix the state of charge.  Over the reals. ---- *)
+From DK.Model Require Import SetOps NpOps.
+From DK.Gen Require Import Utils.
+From DK.Proofs Require Import GenUtils.
+Theorem C09_source_power_matrix : forall l, power_matrix_gen l = map (fun i => map (fun j => (i - j)%nat) (seq 0 l)) (seq 0 l).
+Proof. exact gen_power_matrix. Qed.
+Theorem C09_source_sustainment_matrix : forall (s : R) l, sustainment_matrix_gen s l = sust_matrix s l.
+Proof. exact gen_sustainment_matrix. Qed.
+Theorem C09_source_base_soc : forall (b s : R) l, base_soc_gen b s l = base_soc b s l.
+Proof. exact gen_base_soc. Qed.
+Theorem C09_source_soc : forall (r : list R) s e, soc_gen r s e = soc r s e.
+Proof. exact gen_soc. Qed.
